@@ -24,7 +24,7 @@ RULE = ("Model level: Hypothesis draws T=1..3 distinct blob templates, a rotatio
         "rotation features the searched rotation (incl. a 3 x 125 = 375-candidate search whose flat indices exceed 8 bits). Grid level (enumerated): normalize_rotations of (max, step) ranges "
         "against the documented grid (size, identity, z-major order, external single-axis rotations). "
         "Non-trivial = T > 1 and K > 1 with k != identity.")
-RULE += (" " + "Also: Model.fit with several templates, binary masks given as bool / uint8 / float32 arrays, one-element template lists through the multi-template loader routes (engine 'loader-single-template'), a 3 x 125 = 375 candidate search (engine 'loader-many-candidates'), (max, step) ranges whose ratio is whole only in decimals.")
+RULE += (" " + "Also: Model.fit with several templates, binary masks given as bool / uint8 / float32 arrays, one-element template lists through the multi-template loader routes (engine 'loader-single-template'), a 3 x 125 = 375 candidate search (engine 'loader-many-candidates'), (max, step) ranges whose ratio is whole only in decimals. Round 7: group mappings that give the groups different numbers of templates (labels index each group's own list).")
 TOLERANCES = {"rotation": "1e-6 rad (must be exactly a candidate)", "shift": "0.15 px", "score optimality": "2e-3 relative",
               "grid": "1e-6 rad"}
 ASSUMPTIONS = ["rotation sets contain the identity (documented precondition) and have members >= 25 deg apart",
@@ -193,6 +193,7 @@ def judge_loader(d):
     n = len(c["mole"])
     route = d["route"]
     lname = d["label_name"]
+    relabel = {}
     with warnings.catch_warnings():
         warnings.simplefilter("ignore")
         if route == "align-stack":
@@ -205,8 +206,15 @@ def judge_loader(d):
             if route == "group-list":
                 tm = list(c["templates"])
             else:
-                keys = sorted(set(c["mole"].features["g"].to_list()))
+                gl = c["mole"].features["g"].to_list()
+                keys = sorted(set(gl))
                 tm = {key: list(c["templates"]) for key in keys}
+                if d.get("uneven") and len(keys) > 1:
+                    # the groups need not be given the same number of templates: the last group only gets the templates
+                    # its own particles were planted from; its labels index its own list
+                    used = sorted({d["particles"][i]["tmpl"] % T for i in range(n) if gl[i] == keys[-1]})
+                    tm[keys[-1]] = [c["templates"][t] for t in used]
+                    relabel = {i: used.index(d["particles"][i]["tmpl"] % T) for i in range(n) if gl[i] == keys[-1]}
             g2 = grp.align_multi_templates(tm, max_shifts=ms, alignment_model=Model, label_name=lname, **kw)
             res = Molecules.concat([ldr.molecules for _, ldr in g2])
         else:
@@ -221,7 +229,9 @@ def judge_loader(d):
         want_t = d["particles"][i]["tmpl"] % T
         lab = want_t if single_path else int(res.features[lname][row])
         tag = f"{tag0} particle {i} (template {want_t}, k={c['k'][i]})"
-        if lab != want_t:
+        if i in relabel:
+            tag += f" [its group was given {len(set(relabel.values()))} of the {T} templates; expected label {relabel[i]}]"
+        if lab != relabel.get(i, want_t):
             out.append(viol(f"C06/loader-template-label:{route}", f"{tag}: {lname}={lab}"))
             continue
         aerr = planted.angle(res.rotator[row], c["Rstar"][i])
@@ -329,8 +339,9 @@ def model_cases(draw):
 @st.composite
 def loader_cases(draw):
     d = draw(c01_pose.cases(("multi",)))
-    d["route"] = draw(st.sampled_from(["align-stack", "multi", "group-list", "group-mapping"]))
+    d["route"] = draw(st.sampled_from(["align-stack", "multi", "group-list", "group-mapping", "group-mapping"]))
     d["label_name"] = draw(st.sampled_from(["labels", "tmpl-id"]))
+    d["uneven"] = draw(st.booleans())
     return d
 
 
